@@ -1,7 +1,9 @@
 SPECIFICATION Spec
-CONSTANT MaxEntries = 2
+CONSTANT MaxEntries = 3
 CONSTANT Classes = {"cWW", "tHS"}
-CONSTANT WithAbsent = TRUE
+CONSTANT WithAbsent = FALSE
+CONSTANT Oriented = FALSE
+CONSTANT Ords = {TRUE, FALSE}
 CONSTANT RowPolicy = "until_placed"
 CONSTANT Resolve = "as_code"
 INVARIANT LiftLemma
